@@ -269,10 +269,10 @@ func main() {
 		Ours:   []rmkit.Op{{Kind: "ins", Key: 2, Row: []rmkit.Val{rmkit.IntV(5)}}},
 		Theirs: []rmkit.Op{{Kind: "ins", Key: 3, Row: []rmkit.Val{rmkit.IntV(7)}}}, Resolve: "none"})
 	root := hx.NewRng(e.Seed*0xD6E8FEB86659FD93 ^ e.Rng.U64())
-	n := e.N(70, 1200)
+	n := e.N(70, 600)
 	for i := 0; i < n; i++ {
 		rng := root.Fork()
-		o := rmkit.GenOpts{SchemaChange: 1, MaxKeys: 8}
+		o := rmkit.GenOpts{SchemaChange: 3, MaxKeys: 8}
 		if rng.Chance(1, 6) {
 			o.MaxKeys = 60 // several chunks are out of reach of SQL-sized tables; still exercises range logic a little
 		}
